@@ -255,9 +255,51 @@ def judge_include_bytes(asm, acc, case):
         shutil.rmtree(root, ignore_errors=True)
 
 
+def judge_two_dirs(asm, acc, seed):
+    """main.asm embeds data.bin (next to it) and includes sub/part.asm which embeds *its own* data.bin; a third directory is on
+    the include path.  Each include_bytes must embed the file found next to the file that holds the directive.  Assembled twice
+    with the same include_dirs list object."""
+    rng = random.Random('c10-two-%d' % seed)
+    root = tempfile.mkdtemp(prefix='bbv-c10-')
+    try:
+        src = os.path.join(root, 'src')
+        sub = os.path.join(src, 'sub')
+        inc = os.path.join(root, 'inc')
+        for d in (sub, inc):
+            os.makedirs(d)
+        a = bytes(rng.randrange(256) for _ in range(rng.randrange(1, 9)))
+        b = bytes(rng.randrange(256) for _ in range(rng.randrange(1, 9)))
+        open(os.path.join(src, 'data.bin'), 'wb').write(a)
+        open(os.path.join(sub, 'data.bin'), 'wb').write(b)
+        open(os.path.join(inc, 'other.asm'), 'w').write('OTHER = 1\n')
+        open(os.path.join(sub, 'part.asm'), 'w').write('bytes 2\ninclude_bytes data.bin\n')
+        order = rng.random() < 0.5
+        body = ['bytes 1', 'include_bytes data.bin', 'include sub/part.asm'] if order else ['include sub/part.asm', 'bytes 1', 'include_bytes data.bin']
+        main = os.path.join(src, 'main.asm')
+        open(main, 'w').write('\n'.join(body + ['bytes 3']) + '\n')
+        exp = (b'\x01' + a + b'\x02' + b) if order else (b'\x02' + b + b'\x01' + a)
+        exp += b'\x03'
+        incs = [inc]
+        for rep in range(2):
+            o = monitors.observe(asm, main, include_dirs=incs, tap=False)
+            acc['n'] += 1
+            acc['ctr']['two_directory_cases'] += 1
+            acc['ntkeys'].add(core.ckey('two', seed, rep))
+            if not o.ok or o.out != exp:
+                core.add_viol(acc, 'include_bytes data.bin from two directories in one program (call %d with the same include_dirs list): %s; expected %s' % (
+                    rep + 1, o.out.hex() if o.ok else o.exc['msg'], exp.hex()), {'kind': 'two', 'seed': seed}, {})
+                break
+    finally:
+        shutil.rmtree(root, ignore_errors=True)
+
+
 def run_shard(sh, deadline):
     asm = core.load_asm()
     acc = core.new_acc()
+    if sh['kind'] == 'two':
+        for k in range(sh['count']):
+            judge_two_dirs(asm, acc, sh['seed'] * 1000 + k)
+        return acc
     if sh['kind'] == 'num':
         numeric_shard(asm, acc, sh, deadline)
     elif sh['kind'] == 'str':
@@ -283,6 +325,7 @@ def plan(tier, seed):
                         cases.append({'kind': 'inc', 'loc': loc, 'cwd': cwd, 'decoy': decoy, 'via': via, 'size': size})
     nsh = 16
     shards += [{'kind': 'inc', 'cases': cases[i::nsh]} for i in range(nsh)]
+    shards += [{'kind': 'two', 'seed': seed + i, 'count': 20 if tier == 'quick' else 300} for i in range(2)]
     return {'shards': shards, 'budget_s': 300 if tier == 'quick' else 2400, 'extra_cov': {'include_bytes_cases': len(cases)}}
 
 
@@ -302,7 +345,9 @@ def gates(acc, tier):
 def replay(case):
     asm = core.load_asm()
     acc = core.new_acc()
-    if case['kind'] == 'num':
+    if case['kind'] == 'two':
+        judge_two_dirs(asm, acc, case['seed'])
+    elif case['kind'] == 'num':
         judge_numeric(asm, acc, case['line'], [tuple(p) for p in case['pieces']], case)
     elif case['kind'] == 'str':
         judge_string(asm, acc, case['text'], case.get('indent', ''))
